@@ -1,12 +1,407 @@
 package main
 
-import "context"
+// Replay of solver counterexamples on the real code. For functions marked
+// `opt replay` (no heap effects, scalar / flat-struct parameters and results)
+// the model's input values are passed to the REAL function in an in-package test
+// injected with `go test -overlay` (nothing is written to /repo); the observed
+// outputs are then checked against the failed clause by the solver.
+
+import (
+	"context"
+	"encoding/json"
+	"fmt"
+	"os"
+	"os/exec"
+	"path/filepath"
+	"regexp"
+	"strconv"
+	"strings"
+)
 
 func bgCtx() context.Context { return context.Background() }
 
-// replayOnRealCode tries to turn the solver's model of a refuted obligation
-// into a test against the real function. Returns nil if no replay exists for
-// this obligation shape.
+type replayVal struct {
+	Name   string
+	GoType string
+	V      Value
+}
+
+type replayInfo struct {
+	Func    string
+	Pkg     string
+	PkgDir  string
+	Recv    *replayVal
+	Params  []replayVal
+	Results []replayVal
+}
+
+var modelDefRe = regexp.MustCompile(`(?s)\(define-fun ([^ ()]+) \(\) ([^\n]+)\n\s+([^\n]+)\)`)
+
+func parseModel(m string) map[string]string {
+	out := map[string]string{}
+	for _, d := range modelDefRe.FindAllStringSubmatch(m, -1) {
+		out[d[1]] = strings.TrimSpace(d[3])
+	}
+	return out
+}
+
+func bvToUint(v string) (uint64, bool) {
+	switch {
+	case strings.HasPrefix(v, "#x"):
+		n, err := strconv.ParseUint(v[2:], 16, 64)
+		return n, err == nil
+	case strings.HasPrefix(v, "#b"):
+		n, err := strconv.ParseUint(v[2:], 2, 64)
+		return n, err == nil
+	case strings.HasPrefix(v, "(_ bv"):
+		f := strings.Fields(strings.Trim(v, "()"))
+		if len(f) >= 2 {
+			n, err := strconv.ParseUint(strings.TrimPrefix(f[1], "bv"), 10, 64)
+			return n, err == nil
+		}
+	}
+	return 0, false
+}
+
+// goLeaf renders one scalar leaf as a Go expression of type gt.
+func (rp *replayer) goLeaf(t Term, gt string) (string, bool) {
+	mv, have := rp.model[t.S]
+	switch t.T.K {
+	case SBV:
+		n := uint64(0)
+		if have {
+			var ok bool
+			if n, ok = bvToUint(mv); !ok {
+				return "", false
+			}
+		}
+		rp.fixed = append(rp.fixed, fmt.Sprintf("(= %s %s)", t.S, bvConstI(int64(n), t.T.W).S))
+		if strings.HasPrefix(gt, "int") && t.T.W == 64 {
+			return fmt.Sprintf("%s(%d)", gt, int64(n)), true
+		}
+		return fmt.Sprintf("%s(%#x)", gt, n), true
+	case SInt:
+		n := "0"
+		if have {
+			n = strings.NewReplacer("(", "", ")", "", " ", "").Replace(mv)
+		}
+		if _, err := strconv.ParseInt(n, 10, 64); err != nil {
+			return "", false
+		}
+		sn := n
+		if strings.HasPrefix(n, "-") {
+			sn = "(- " + n[1:] + ")"
+		}
+		rp.fixed = append(rp.fixed, fmt.Sprintf("(= %s %s)", t.S, sn))
+		return fmt.Sprintf("%s(%s)", gt, n), true
+	case SBool:
+		b := have && mv == "true"
+		rp.fixed = append(rp.fixed, fmt.Sprintf("(= %s %v)", t.S, b))
+		return fmt.Sprintf("%v", b), true
+	case SStr:
+		// abstract string value -> a concrete string (literals keep their text)
+		key := mv
+		if !have {
+			key = "default"
+		}
+		if lit, ok := rp.litOfVal[key]; ok {
+			rp.fixed = append(rp.fixed, fmt.Sprintf("(= %s %s)", t.S, rp.vc.lits[lit].S))
+			return strconv.Quote(lit), true
+		}
+		s, ok := rp.strOfVal[key]
+		if !ok {
+			s = fmt.Sprintf("s%d", len(rp.strOfVal))
+			rp.strOfVal[key] = s
+		}
+		rp.strTerm[s] = t.S
+		return strconv.Quote(s), true
+	}
+	return "", false
+}
+
+type replayer struct {
+	vc       *VC
+	model    map[string]string
+	fixed    []string
+	litOfVal map[string]string // model value -> literal text
+	strOfVal map[string]string // model value -> invented concrete string
+	strTerm  map[string]string // concrete string -> an SMT term that has this value
+}
+
+func (rp *replayer) goValue(v Value, gt string) (string, bool) {
+	switch x := v.(type) {
+	case Term:
+		return rp.goLeaf(x, gt)
+	case *StructV:
+		if isSlice(x) {
+			return "", false
+		}
+		var fs []string
+		for i, n := range x.Names {
+			ft := "" // field types: scalars are rendered with an explicit conversion only when the type is known
+			e, ok := rp.goValueUntyped(x.F[i])
+			if !ok {
+				return "", false
+			}
+			_ = ft
+			fs = append(fs, n+": "+e)
+		}
+		return gt + "{" + strings.Join(fs, ", ") + "}", true
+	}
+	return "", false
+}
+
+func (rp *replayer) goValueUntyped(v Value) (string, bool) {
+	t, ok := v.(Term)
+	if !ok {
+		return "", false
+	}
+	switch t.T.K {
+	case SBV:
+		e, ok := rp.goLeaf(t, "uint64")
+		if !ok {
+			return "", false
+		}
+		return strings.TrimSuffix(strings.TrimPrefix(e, "uint64("), ")"), true
+	case SInt:
+		e, ok := rp.goLeaf(t, "int")
+		return strings.TrimSuffix(strings.TrimPrefix(e, "int("), ")"), ok
+	}
+	return rp.goLeaf(t, "")
+}
+
+// replayOnRealCode returns a record of the replay, with "reproduced": true if the real outputs violate the clause.
 func replayOnRealCode(o *Obligation, goos, dir, base string) map[string]interface{} {
-	return nil
+	if o.ReplayGoal == nil || o.Replay == nil || goos != "linux" || o.vc == nil {
+		return nil
+	}
+	ri := o.Replay
+	model := o.Model
+	if o.SplitBits > 0 || model == "" || !strings.Contains(model, "define-fun") {
+		// get a model from z3 for the failing case
+		so := runSolver(bgCtx(), solvers[0], o.Query(true), 20, 0)
+		if so.status != "sat" {
+			so = runSolver(bgCtx(), solvers[1], o.Query(true), 20, 0)
+		}
+		if so.status != "sat" {
+			return map[string]interface{}{"reproduced": false, "why": "no model available"}
+		}
+		model = so.output
+	}
+	rp := &replayer{vc: o.vc, model: parseModel(model), litOfVal: map[string]string{}, strOfVal: map[string]string{}, strTerm: map[string]string{}}
+	for lit, t := range o.vc.lits {
+		if mv, ok := rp.model[t.S]; ok {
+			rp.litOfVal[mv] = lit
+		}
+	}
+	// with a case split the split variable is a define-fun of its high part
+	if o.SplitBits > 0 && o.SplitVar != "" {
+		if hv, ok := rp.model[o.SplitVar+".hi"]; ok {
+			if n, ok2 := bvToUint(hv); ok2 {
+				full := n<<uint(o.SplitBits) | uint64(o.splitVal)
+				rp.model[o.SplitVar] = fmt.Sprintf("#x%08x", full)
+			}
+		}
+	}
+	var argExprs []string
+	for _, p := range ri.Params {
+		e, ok := rp.goValue(p.V, p.GoType)
+		if !ok {
+			return map[string]interface{}{"reproduced": false, "why": "parameter " + p.Name + " cannot be rendered as a Go value"}
+		}
+		argExprs = append(argExprs, e)
+	}
+	call := ri.Func + "(" + strings.Join(argExprs, ", ") + ")"
+	if ri.Recv != nil {
+		if strings.HasPrefix(ri.Recv.GoType, "*") {
+			call = "new(" + ri.Recv.GoType[1:] + ")." + call
+		} else {
+			e, ok := rp.goValue(ri.Recv.V, ri.Recv.GoType)
+			if !ok {
+				return map[string]interface{}{"reproduced": false, "why": "receiver cannot be rendered as a Go value"}
+			}
+			call = e + "." + call
+		}
+	}
+	// print every result leaf
+	var lhs, prints []string
+	for i, r := range ri.Results {
+		name := fmt.Sprintf("r%d", i)
+		lhs = append(lhs, name)
+		switch rv := r.V.(type) {
+		case Term:
+			prints = append(prints, printLeaf(name, rv))
+		case *StructV:
+			for j, fn := range rv.Names {
+				if t, ok := rv.F[j].(Term); ok {
+					prints = append(prints, printLeaf(name+"."+fn, t))
+				}
+			}
+		}
+	}
+	src := fmt.Sprintf("package %s\n\nimport (\n\t\"fmt\"\n\t\"testing\"\n)\n\n// generated by /verif: replays a solver counterexample on the real function\nfunc TestVerifReplay(t *testing.T) {\n\t%s := %s\n%s}\n",
+		ri.Pkg, strings.Join(lhs, ", "), call, strings.Join(prints, ""))
+	if len(lhs) == 0 {
+		return nil
+	}
+	tdir, err := os.MkdirTemp("", "replay.")
+	if err != nil {
+		return nil
+	}
+	defer os.RemoveAll(tdir)
+	tf := filepath.Join(tdir, "verif_replay_test.go")
+	os.WriteFile(tf, []byte(src), 0o644)
+	ovb, _ := json.Marshal(map[string]interface{}{"Replace": map[string]string{filepath.Join(ri.PkgDir, "verif_replay_test.go"): tf}})
+	ov := filepath.Join(tdir, "ov.json")
+	os.WriteFile(ov, ovb, 0o644)
+	cmd := exec.Command("go", "test", "-overlay", ov, "-vet=off", "-count=1", "-timeout", "60s", "-run", "^TestVerifReplay$", "-v", ".")
+	cmd.Dir = ri.PkgDir
+	cmd.Env = append(os.Environ(), "GOFLAGS=-mod=mod", "GOPROXY=off", "GOSUMDB=off", "GOTOOLCHAIN=local")
+	out, _ := cmd.CombinedOutput()
+	rec := map[string]interface{}{"test_source": src, "cmd": "go test -overlay <ov> -vet=off -count=1 -timeout 60s -run '^TestVerifReplay$' -v . (in " + ri.PkgDir + ")", "output": firstLines(string(out), 30), "call": call}
+	// observed outputs -> assertions on the free result constants
+	obs := map[string]string{}
+	for _, ln := range strings.Split(string(out), "\n") {
+		if strings.HasPrefix(ln, "VERIFREPLAY ") {
+			f := strings.SplitN(ln[len("VERIFREPLAY "):], "=", 2)
+			if len(f) == 2 {
+				obs[f[0]] = f[1]
+			}
+		}
+	}
+	if len(obs) == 0 {
+		rec["reproduced"] = false
+		rec["why"] = "the replay test did not run"
+		if strings.Contains(string(out), "panic:") {
+			// the real function panics on the model's input: that is a reproduced failure
+			rec["reproduced"] = true
+			rec["why"] = "the real function panics on this input"
+		}
+		return rec
+	}
+	extra := append([]string(nil), rp.fixed...)
+	var extraDecl []string
+	addStr := func(term string, val string) {
+		// the concrete string val as an SMT term
+		for lit, t := range o.vc.lits {
+			if lit == val {
+				extra = append(extra, fmt.Sprintf("(= %s %s)", term, t.S))
+				return
+			}
+		}
+		if val == "" {
+			extra = append(extra, fmt.Sprintf("(= %s str.empty)", term))
+			return
+		}
+		if t, ok := rp.strTerm[val]; ok {
+			if t != term {
+				extra = append(extra, fmt.Sprintf("(= %s %s)", term, t))
+			}
+			return
+		}
+		rp.strTerm[val] = term
+	}
+	i := 0
+	for _, r := range ri.Results {
+		name := fmt.Sprintf("r%d", i)
+		i++
+		leaves := map[string]Term{}
+		switch rv := r.V.(type) {
+		case Term:
+			leaves[name] = rv
+		case *StructV:
+			for j, fn := range rv.Names {
+				if t, ok := rv.F[j].(Term); ok {
+					leaves[name+"."+fn] = t
+				}
+			}
+		}
+		for ln, t := range leaves {
+			v, ok := obs[ln]
+			if !ok {
+				continue
+			}
+			switch t.T.K {
+			case SBV:
+				n, _ := strconv.ParseUint(v, 10, 64)
+				extra = append(extra, fmt.Sprintf("(= %s %s)", t.S, bvConstI(int64(n), t.T.W).S))
+			case SInt:
+				if strings.HasPrefix(v, "-") {
+					extra = append(extra, fmt.Sprintf("(= %s (- %s))", t.S, v[1:]))
+				} else {
+					extra = append(extra, fmt.Sprintf("(= %s %s)", t.S, v))
+				}
+			case SBool:
+				extra = append(extra, fmt.Sprintf("(= %s %s)", t.S, v))
+			case SStr:
+				s, err := strconv.Unquote(v)
+				if err != nil {
+					s = v
+				}
+				if o.Strings {
+					extra = append(extra, fmt.Sprintf("(= %s %s)", t.S, smtStringLit(s)))
+				} else {
+					addStr(t.S, s)
+				}
+			}
+		}
+	}
+	// distinct invented strings denote distinct values, different from every literal
+	if !o.Strings {
+		var ds []string
+		for _, t := range rp.strTerm {
+			ds = append(ds, t)
+		}
+		for _, t := range o.vc.lits {
+			ds = append(ds, t.S)
+		}
+		if len(ds) > 1 {
+			extra = append(extra, "(distinct "+strings.Join(ds, " ")+" str.empty)")
+		}
+	}
+	_ = extraDecl
+	c := *o
+	c.PC = tTrue
+	c.Goal = *o.ReplayGoal
+	c.ExtraAsserts = extra
+	so := runSolver(bgCtx(), solvers[0], c.Query(false), 20, 0)
+	if so.status != "sat" && so.status != "unsat" {
+		so = runSolver(bgCtx(), solvers[1], c.Query(false), 20, 0)
+	}
+	rec["observed"] = obs
+	rec["clause_on_observed_outputs"] = so.status
+	rec["reproduced"] = false
+	if so.status == "sat" {
+		// the clause must be false whatever the uninterpreted library functions (Sprintf, Clean, ...) are: assert it and expect unsat
+		c2 := c
+		c2.Goal = tNot(*o.ReplayGoal)
+		so2 := runSolver(bgCtx(), solvers[0], c2.Query(false), 20, 0)
+		if so2.status != "sat" && so2.status != "unsat" {
+			so2 = runSolver(bgCtx(), solvers[1], c2.Query(false), 20, 0)
+		}
+		rec["clause_satisfiable_on_observed_outputs"] = so2.status
+		if so2.status == "unsat" {
+			rec["reproduced"] = true
+			rec["why"] = "the real function's output for this input violates the clause"
+		} else {
+			rec["why"] = "the clause mentions library functions kept uninterpreted (e.g. fmt.Sprintf), so the observed output cannot be judged by the solver alone"
+		}
+	} else if so.status == "unsat" {
+		rec["why"] = "the real function's output for the model's input satisfies the clause (the model does not transfer)"
+	}
+	return rec
+}
+
+func printLeaf(expr string, t Term) string {
+	switch t.T.K {
+	case SBV:
+		return fmt.Sprintf("\tfmt.Printf(\"VERIFREPLAY %s=%%d\\n\", uint64(%s))\n", expr, expr)
+	case SInt:
+		return fmt.Sprintf("\tfmt.Printf(\"VERIFREPLAY %s=%%d\\n\", int64(%s))\n", expr, expr)
+	case SBool:
+		return fmt.Sprintf("\tfmt.Printf(\"VERIFREPLAY %s=%%t\\n\", %s)\n", expr, expr)
+	case SStr:
+		return fmt.Sprintf("\tfmt.Printf(\"VERIFREPLAY %s=%%q\\n\", %s)\n", expr, expr)
+	}
+	return ""
 }
